@@ -256,6 +256,9 @@ func (t *memTransport) RoundTrip(req *http.Request) (*http.Response, error) {
 	go func() {
 		select {
 		case <-ctx.Done():
+			// (a schedule point: the moment the server side of the
+			// connection learns that the client has gone)
+			gateHook("mem.gone")
 			c.mu.Lock()
 			c.aborted = true
 			eof := c.bodyEOF
